@@ -296,6 +296,9 @@ func (r *walRun) scriptHistory(words []string, unit int) {
 			if g == nil {
 				panic("generated behaviour: consume on a group that is not in the map: " + word)
 			}
+			if g.Pending() <= 0 {
+				panic("generated behaviour: consume on a group without pending messages (the call would block): " + word)
+			}
 			r.rec.Emit("Op", trace.F{"t": "main", "op": "Consume", "g": f[1]})
 			s := g.Consume()
 			r.proj(trace.F{"t": "main", "res": s})
@@ -346,6 +349,9 @@ func (r *walRun) scriptHistory(words []string, unit int) {
 			r.rec.Emit("Down", trace.F{"how": "close"})
 			r.fq.Close()
 			closed = true
+			// crash images are taken of the part of the behaviour before its first close: page files (re)created by the
+			// reopen are outside the store log the images are materialised from
+			r.noImage = true
 		case "reopen":
 			if err := r.open(); err != nil {
 				r.rec.Emit("Error", trace.F{"op": "Reopen", "err": err.Error()})
